@@ -21,9 +21,20 @@ type engine struct{}
 
 func (engine) ID() string { return "C20" }
 func (engine) CoqHeader() string {
-	return "From Eino Require Import Base.Util Model.Builder Model.BuilderNested Corr.C20.\n"
+	return "From Eino Require Import Base.Util Model.Builder Model.BuilderNested Corr.C20.\nImport Coq.Init.Byte.\n"
 }
 func (engine) CoqCaseType() string { return "ccase" }
+
+// coqHashes prints 40-bit hashes as (H5 b4 b3 b2 b1 b0) over the constructors of Coq.Init.Byte.byte (Corr/C20.v: H5):
+// coqc interprets a decimal literal of 13 digits in 0.7 ms, and a quick run has 70 000 of them — more than half of
+// the model side's time; five constructors are read five times faster and denote the same number.
+func coqHashes(ns []uint64) string {
+	s := make([]string, len(ns))
+	for i, n := range ns {
+		s[i] = fmt.Sprintf("(H5 x%02x x%02x x%02x x%02x x%02x)", byte(n>>32), byte(n>>24), byte(n>>16), byte(n>>8), byte(n))
+	}
+	return lib.CoqList(s)
+}
 
 func (engine) Decode(raw json.RawMessage) (any, error) {
 	var c Case
@@ -104,6 +115,14 @@ func normalize(c *Case) {
 			}
 			if k.Op == "addnode" && k.Kind != "pass" {
 				k.Kind = "lambda" // the sub graphs of a nested case are named values (op sub)
+			}
+		}
+		if keyedPass(k.Kind) && !(c.FE == "graph" && k.Op == "addnode") {
+			k.Kind = "pass" // keyed pass-through nodes: nodes of a top-level Graph only
+		}
+		for j := range k.Items {
+			if keyedPass(k.Items[j].Kind) {
+				k.Items[j].Kind = "pass"
 			}
 		}
 		if k.Kind != "lambda" {
@@ -272,7 +291,7 @@ func coqCase(c *Case, obs []CallObs, intact bool) string {
 		} else {
 			call = coqCall(c.FE, &c.Calls[i], obs[i].Ord, obs[i].SOrd)
 		}
-		pairs[i] = lib.CoqPair(call, lib.CoqPair(coqObs(obs[i]), lib.CoqPair(lib.CoqNList(obs[i].Gone), lib.CoqNList(obs[i].New))))
+		pairs[i] = lib.CoqPair(call, lib.CoqPair(coqObs(obs[i]), lib.CoqPair(coqHashes(obs[i].Gone), coqHashes(obs[i].New))))
 	}
 	ctor := map[string]string{"graph": "CaseG", "chain": "CaseC", "workflow": "CaseW", "nested": "CaseN"}[c.FE]
 	term := lib.CoqApp(ctor, lib.CoqBool(c.State), lib.CoqList(pairs), lib.CoqBool(intact))
@@ -540,9 +559,18 @@ func flag(b bool, t, f string) string {
 
 // modelled: the case is replayed on the model.  Not: a Workflow case when the builder states cannot be read (the order
 // its Compiles took is read off them), a nested case with Workflow children (Model/BuilderNested.v has Graph and Chain children)
+func keyedPass(kind string) bool { return kind == "passk" || kind == "passo" || kind == "passko" }
+
 func modelled(c *Case) bool {
 	if c.FE == "workflow" && !haveState {
 		return false
+	}
+	// pass-through nodes with an input / output key: the model has one type per case and no keys (typing is
+	// property C07); such cases are judged by the Go-side oracles (no panic, sticky, repeatable, immutable, intact)
+	for _, k := range c.Calls {
+		if keyedPass(k.Kind) {
+			return false
+		}
 	}
 	if c.FE == "nested" {
 		for _, k := range c.Calls {
